@@ -767,7 +767,7 @@ func StrLe(a, b *Term) *Term {
 	}
 	return mk(&Term{Op: "str.<=", Sort: Bool, Args: []*Term{a, b}})
 }
-func StrToInt(a *Term) *Term  { return mk(&Term{Op: "str.to_int", Sort: Int, Args: []*Term{a}}) }
+func StrToInt(a *Term) *Term   { return mk(&Term{Op: "str.to_int", Sort: Int, Args: []*Term{a}}) }
 func StrFromInt(a *Term) *Term { return mk(&Term{Op: "str.from_int", Sort: Str, Args: []*Term{a}}) }
 func StrToCode(a *Term) *Term {
 	if a.IsConst() {
